@@ -145,6 +145,49 @@ Theorem C02_provider_own_keyset : forall verify p hint t m now c' alg,
 Proof. exact provider_own_keyset. Qed.
 Print Assumptions C02_provider_own_keyset.
 
+(* ONE instance, several tokens.  A remote key set whose endpoint keeps serving
+   the list l answers every call of any sequence as a fresh key set would (cache
+   still empty or already l): earlier verifications are no input of a later answer. *)
+Theorem C02_remote_steady_stateless : forall verify allowed skip l steps cached,
+  cached = [] \/ cached = l ->
+  Forall (fun s => rs_served s = Some l) steps ->
+  map fst (remote_run verify allowed skip cached steps)
+  = map (fun s => check_signature verify allowed (KSRemote [] (Some l) skip) (rs_tok s) (rs_parsed s)) steps.
+Proof. exact remote_steady_stateless. Qed.
+Print Assumptions C02_remote_steady_stateless.
+
+Theorem C02_verifier_steady : forall verify k v l skip t m now,
+  run_verifier verify k v (KSRemote l (Some l) skip) t m now
+  = run_verifier verify k v (KSRemote [] (Some l) skip) t m now.
+Proof. exact verifier_steady. Qed.
+Print Assumptions C02_verifier_steady.
+
+(* Symbolic signature values ([SigBy mat alg prot payload] verifies only under key
+   material mat, algorithm alg, protected header prot, payload bytes payload): any
+   verifier hands back claims only if the presented signature value was made for
+   exactly the presented header and the bytes the claims were decoded from ... *)
+Theorem C02_signature_not_transferable : forall k v ks t m now c' alg,
+  outcome_claims (run_verifier sym_verify k v ks t m now) = Some (c', alg) ->
+  exists bytes c e key,
+    m = MidOk bytes c /\ c' = returned_claims k c
+    /\ tok_sigs t = [e] /\ In key (ks_keys (verifier_keyset k ks c))
+    /\ se_sig e = SigBy (k_mat key) (se_alg e) (se_prot e) bytes.
+Proof. exact verifier_signature_not_transferable. Qed.
+Print Assumptions C02_signature_not_transferable.
+
+(* ... and on one remote key set instance, at any position n of any history
+   (whatever was verified, downloaded or cached before), a token whose signature
+   value was made for another header or other payload bytes - e.g. the signature
+   segment of a token verified earlier - is rejected *)
+Theorem C02_replayed_signature_rejected : forall allowed skip steps cached n s e mat a pr pl res f,
+  nth_error steps n = Some s ->
+  tok_sigs (rs_tok s) = [e] -> se_sig e = SigBy mat a pr pl ->
+  pr <> se_prot e \/ pl <> rs_parsed s ->
+  nth_error (remote_run sym_verify allowed skip cached steps) n = Some (res, f) ->
+  exists er, res = Err er.
+Proof. exact replayed_signature_rejected. Qed.
+Print Assumptions C02_replayed_signature_rejected.
+
 (* the property predicate evaluated by the correspondence run holds of the model on every input *)
 Theorem C02_spec_model : forall i, spec i (model i) = true.
 Proof. exact spec_model. Qed.
